@@ -332,10 +332,21 @@ for _sid in ("seq_any", "seq_any.E", "seq", "choice.E", "seqof_int", "set_mixed"
                                  tiers=("quick", "thorough") if _sid in ("seq_any", "seq", "choice.E") else ("thorough",),
                                  doc="streaming decoder over every two-chunk arrival with and without debug logging"))
     OBLIGATIONS[-1].per_path = 8.0
-PAIRS = [("der_seq", "ber_indef_chunked"), ("cer_set", "choice_expl_indef"), ("two_ints_octs", "bits_chunked"), ("der_seq", "der_seq"), ("hi_tag", "der_seq_x2")]
+def stream_isolated(sid, c1, eof_with_last):
+    """Items decoded one after the other by ONE StreamingDecoder (shared tag caches, shared substrate) equal the items decoded in
+    isolation by fresh one-shot decoders."""
+    from props import C05
+
+    return C05.run_schedule(sid, 1, eof_with_last, (c1,))
+
+
+for _sid in ("two_ints_octs", "hi_tags_x3", "der_seq_x2", "choice_expl_indef"):
+    OBLIGATIONS.append(Obl("stream_isolated:%s" % _sid, stream_isolated, {"sid": C(_sid), "c1": I(0, len(BY_ID[_sid].data)), "eof_with_last": B}, budget=120,
+                           doc="one decoder instance over several items vs each item decoded in isolation; every two-chunk arrival"))
+PAIRS = [("der_seq", "ber_indef_chunked"), ("cer_set", "choice_expl_indef"), ("two_ints_octs", "bits_chunked"), ("hi_tags_x3", "two_ints_octs"), ("der_seq", "der_seq"), ("hi_tag", "der_seq_x2")]
 for (a, b) in PAIRS:
     OBLIGATIONS.append(Obl("interleave:%s+%s" % (a, b), interleave,
                            {"sa": C(a), "sb": C(b), "ca": I(0, len(BY_ID[a].data)), "cbi": I(0, 4), "p0": B, "p1": B, "p2": B, "p3": B, "p4": B, "p5": B},
                            shards=[{"p0": C(x), "p1": C(y), "p2": C(z)} for x in (False, True) for y in (False, True) for z in (False, True)], budget=150,
-                           tiers=("quick", "thorough") if (a, b) in PAIRS[:3] else ("thorough",),
+                           tiers=("quick", "thorough") if (a, b) in PAIRS[:4] else ("thorough",),
                            doc="two suspended StreamingDecoders, symbolic cut each, symbolic 6-step schedule"))
